@@ -134,7 +134,9 @@ impl TreeBuilderSimulator {
 
         Ok(if tag_name == Tag::Svg {
             self.enter_ns(Namespace::Svg)
-        } else if tag_name == Tag::Math {
+        } else if tag_name == Tag::Math && self.current_ns != Namespace::Svg {
+            // NOTE: in SVG content (outside of its integration points) `<math>` is
+            // just an SVG element with that name.
             self.enter_ns(Namespace::MathML)
         } else if self.current_ns != Namespace::Html {
             self.get_feedback_for_start_tag_in_foreign_content(tag_name)
